@@ -112,11 +112,17 @@ class Runner:
         self.stack = stack
         self.loop = asyncio.new_event_loop() if stack == "async" else None
 
+    hook = None
+
     def do(self, fn, *a, **k):
-        r = fn(*a, **k)
-        if self.loop is not None and asyncio.iscoroutine(r):
-            return self.loop.run_until_complete(r)
-        return r
+        try:
+            r = fn(*a, **k)
+            if self.loop is not None and asyncio.iscoroutine(r):
+                return self.loop.run_until_complete(r)
+            return r
+        finally:
+            if self.hook is not None:
+                self.hook()     # look at the driver after EVERY operation, also a failed one
 
     def close(self):
         if self.loop is not None:
@@ -178,6 +184,7 @@ class Result:
         self.nreads = self.nwrites = 0
         self.advisory = []
         self.conn = None
+        self.user_args = {}      # mutable objects the "user" handed to scrapli: deep-scanned afterwards
 
 
 def _conn_exhibits(res, conn, when):
@@ -192,6 +199,14 @@ def run_scenario(key, spec, seed, cap, meta=None):
     res = Result(key, can)
     R = Runner(spec["stack"])
     cap.records.clear()
+    _CUR["res"] = res
+    nmid = [0]
+
+    def hook():
+        if res.conn is not None and nmid[0] < 40:
+            nmid[0] += 1
+            _conn_exhibits(res, res.conn, f"after op {nmid[0]}")
+    R.hook = hook
     try:
         try:
             SCENARIOS[spec["kind"]](spec, can, res, R)
@@ -203,6 +218,8 @@ def run_scenario(key, spec, seed, cap, meta=None):
         except Exception as e:   # a non-scrapli exception: still scan it (advisory unless raised by scrapli code)
             res.outcome = "other:" + type(e).__name__
             res.exhibits += exception_exhibits(e)
+        for name, obj in res.user_args.items():
+            res.exhibits.append(Exhibit("userarg", repr(obj), gating=False, what=f"user supplied {name} afterwards"))
         if res.conn is not None:
             _conn_exhibits(res, res.conn, "after")
             cl = getattr(res.conn.channel, "channel_log", None) or res.conn._base_channel_args.channel_log
@@ -224,10 +241,22 @@ def run_scenario(key, spec, seed, cap, meta=None):
 
 
 # ---------------------------------------------------------------- scenario bodies
+_CUR = {"res": None}
+
+
+def user_transport_options():
+    """what a user may pass: sub-dictionaries / lists for every transport (all mutable, kept by reference)"""
+    return {"asyncssh": {"keepalive_interval": 30, "login_timeout": 5}, "paramiko": {"banner_timeout": 5},
+            "open_cmd": ["-o", "KexAlgorithms=+diffie-hellman-group1-sha1"], "ptyprocess": {"rows": 40, "cols": 200},
+            "enable_rsa2": False}
+
+
 def _common_kw(can, **kw):
     d = dict(auth_username=can["USR"].full, auth_password=can["PW"].full, auth_private_key_passphrase=can["PP"].full,
-             channel_log=io.BytesIO(), logging_uid=can["UID"].full)
+             channel_log=io.BytesIO(), logging_uid=can["UID"].full, transport_options=user_transport_options())
     d.update(kw)
+    if _CUR["res"] is not None:
+        _CUR["res"].user_args["transport_options"] = d["transport_options"]
     return d
 
 
@@ -340,7 +369,9 @@ def sc_interactive(spec, can, res, R):
     res.conn = conn
     R.do(conn.open)
     events = [("enable " + can["NHI"].core, "Password:", False), (can["HID"].full, "r1#", h)]
-    resp = R.do(conn.send_interactive, events)
+    fwc = ["% Invalid"]
+    res.user_args["failed_when_contains"] = fwc
+    resp = R.do(conn.send_interactive, events, failed_when_contains=fwc)
     resp.textfsm_platform = "cisco_ios"
     resp.genie_platform = "iosxe"
     try:
@@ -380,7 +411,7 @@ def sc_factory(spec, can, res, R):
     cls, tr = (Scrapli, "system") if spec["stack"] == "sync" else (AsyncScrapli, "asyncssh")
     conn = cls(platform=spec.get("platform", "cisco_iosxe"), host="sim", transport=tr, auth_username=can["USR"].full,
                auth_password=can["PW"].full, auth_private_key_passphrase=can["PP"].full, auth_secondary=can["SEC"].full,
-               auth_strict_key=False, logging_uid=can["UID"].full)
+               auth_strict_key=False, logging_uid=can["UID"].full, transport_options=res.user_args.setdefault("transport_options", user_transport_options()))
     _conn_exhibits(res, conn, "factory")
     try:
         cls(platform=12, host="sim", auth_password=can["PW"].full)
@@ -441,7 +472,8 @@ def sc_paramiko(spec, can, res, R):
             return True
     keyfile = None
     kw = dict(host="sim", transport="paramiko", auth_username=can["USR"].full, auth_password=can["PW"].full,
-              auth_private_key_passphrase=can["PP"].full, auth_strict_key=False, logging_uid=can["UID"].full, timeout_transport=0)
+              auth_private_key_passphrase=can["PP"].full, auth_strict_key=False, logging_uid=can["UID"].full, timeout_transport=0,
+              transport_options=res.user_args.setdefault("transport_options", user_transport_options()))
     if v == "keyonly":
         fd, keyfile = tempfile.mkstemp(prefix="c12key")
         os.close(fd)
@@ -460,6 +492,91 @@ def sc_paramiko(spec, can, res, R):
         res.advisory.append(("library saw password", seen.get("password") == can["PW"].full))
 
 
+class _FakeStream:
+    def write(self, data):
+        return None
+
+    def at_eof(self):
+        return False
+
+    async def read(self, n):
+        return b"r1> "
+
+
+class _FakeAsyncsshSession:
+    _auth_complete = True
+    _transport = None
+
+    async def open_session(self, **kw):
+        return _FakeStream(), _FakeStream(), _FakeStream()
+
+    def get_server_host_key(self):
+        return None
+
+    def close(self):
+        pass
+
+
+class _FakePty:
+    """stands in for PtyProcess: the 'ssh' child is the login device"""
+    last = None
+
+    def __init__(self, dev):
+        self.dev, self.buf, self.alive = dev, bytearray(dev.connect()), True
+
+    def read(self, n):
+        if not self.buf:
+            if getattr(self.dev, "state", "") == "dead":
+                raise EOFError("End Of File (EOF)")
+            raise SimStall()
+        out = bytes(self.buf[:n])
+        del self.buf[:n]
+        return out
+
+    def write(self, data):
+        self.buf += self.dev.on_write(bytes(data))
+
+    def close(self):
+        self.alive = False
+
+    def isalive(self):
+        return self.alive
+
+    def eof(self):
+        return False
+
+
+def sc_system(spec, can, res, R):
+    """the real SystemTransport (open_cmd building and logging, user supplied open_cmd / ptyprocess options);
+    only PtyProcess.spawn is replaced, the child it would start is the non-echoing login device"""
+    import scrapli.transport.plugins.system.transport as ST
+    from scrapli.driver import GenericDriver
+    v = spec.get("variant", "ok")
+    inner = CliDevice("generic", hostname="r1")
+    dev = LoginDevice(inner, mode="ssh", username=can["USR"].full, host="sim", max_tries=2,
+                      password=can["PW"].full if v == "ok" else "other-pw", passphrase=can["PP"].full)
+    spawned = {}
+
+    class FakePtyProcess:
+        @staticmethod
+        def spawn(cmd, echo=True, rows=80, cols=256):
+            spawned["cmd"] = list(cmd)
+            return _FakePty(dev)
+    old = ST.PtyProcess
+    ST.PtyProcess = FakePtyProcess
+    try:
+        conn = GenericDriver(host="sim", transport="system", auth_strict_key=False, timeout_ops=0, timeout_transport=0,
+                             **_common_kw(can))
+        res.conn = conn
+        _conn_exhibits(res, conn, "before")
+        R.do(conn.open)
+        R.do(conn.send_command, "show " + can["CMD"].core)
+        R.do(conn.close)
+    finally:
+        ST.PtyProcess = old
+        res.exhibits.append(Exhibit("userarg", repr(spawned), gating=True, what="argv of the ssh child process"))
+
+
 def sc_asyncssh(spec, can, res, R):
     import scrapli.transport.plugins.asyncssh.transport as AT
     from asyncssh.misc import PermissionDenied
@@ -475,13 +592,14 @@ def sc_asyncssh(spec, can, res, R):
             raise asyncio.TimeoutError()
         if v == "oserror":
             raise OSError(111, "Connect call failed ('sim', 22)")
-        return None
+        return _FakeAsyncsshSession() if v == "ok" else None
     old = AT.connect
     AT.connect = fake_connect
     try:
         conn = AsyncDriver(host="sim", transport="asyncssh", auth_username=can["USR"].full, auth_password=can["PW"].full,
                            auth_private_key_passphrase=can["PP"].full, auth_strict_key=False, logging_uid=can["UID"].full,
-                           timeout_transport=0)
+                           timeout_transport=0, timeout_ops=0,
+                           transport_options=res.user_args.setdefault("transport_options", user_transport_options()))
         res.conn = conn
         _conn_exhibits(res, conn, "before")
         if spec.get("ctx"):
@@ -491,6 +609,9 @@ def sc_asyncssh(spec, can, res, R):
             R.loop.run_until_complete(go())
         else:
             R.do(conn.open)
+            if v == "ok":
+                conn.channel.write("show " + can["CMD"].core)
+                R.do(conn.close)
     finally:
         AT.connect = old
         res.advisory.append(("library saw password", seen.get("password") == can["PW"].full))
@@ -507,4 +628,4 @@ def sc_real_timeout(spec, can, res, R):
 
 SCENARIOS = {"telnet": sc_telnet, "ssh": sc_ssh, "escalate": sc_escalate, "interactive": sc_interactive,
              "net_interactive": sc_net_interactive, "factory": sc_factory, "paramiko": sc_paramiko, "asyncssh": sc_asyncssh,
-             "real_timeout": sc_real_timeout}
+             "real_timeout": sc_real_timeout, "system": sc_system}
